@@ -330,6 +330,10 @@ fn leaves_full() -> Vec<Expr> {
             v.push(Expr::PeekSlice(a, b));
         }
     }
+    // the extreme indices the reader's integer type admits
+    for (a, b) in [(i32::MIN, None), (i32::MAX, None), (0, Some(i32::MIN)), (0, Some(i32::MAX)), (i32::MIN, Some(i32::MAX)), (-2147483647, Some(2147483646))] {
+        v.push(Expr::PeekSlice(a, b));
+    }
     #[cfg(feature = "extras")]
     {
         v.push(Expr::PushLiteral(s("a")));
